@@ -1,3 +1,159 @@
-//! C01 (stub: no cases yet)
+//! C01 — every string/slice a safe function returns lies inside its argument, is valid UTF-8
+//! and starts/ends on char boundaries of the argument (observed on the real functions; the
+//! model column recomputes the same facts from the model's result).
+//!
+//! `kv_harness c01 miri <seed>` runs a reduced case list (used under Miri in the thorough tier:
+//! the same code paths, including every unsafe block they reach).
 use crate::common::*;
-pub fn run(_cfg: &Cfg, _out: &mut Out) {}
+use konst::parsing::Parser;
+use konst::string as kstr;
+
+/// offset:len view plus the three facts; `N` when the function returned None
+fn facts(h: &str, r: Option<&str>) -> String {
+    match r {
+        None => "N".into(),
+        Some(s) => {
+            let v = view_str(h, s);
+            let utf8 = std::str::from_utf8(s.as_bytes()).is_ok();
+            let (bs, be) = if s.is_empty() {
+                (true, true)
+            } else {
+                let off = s.as_ptr() as usize - h.as_ptr() as usize;
+                (h.is_char_boundary(off), h.is_char_boundary(off + s.len()))
+            };
+            format!("{}|{}{}{}", v, show_bool(utf8), show_bool(bs), show_bool(be))
+        }
+    }
+}
+
+fn one_pat<'a, P: kstr::Pattern<'a> + Copy>(h: &str, p: P) -> Vec<(&'static str, String)> {
+    vec![
+        ("find_skip", facts(h, kstr::find_skip(h, p))),
+        ("find_keep", facts(h, kstr::find_keep(h, p))),
+        ("rfind_skip", facts(h, kstr::rfind_skip(h, p))),
+        ("rfind_keep", facts(h, kstr::rfind_keep(h, p))),
+        ("strip_prefix", facts(h, kstr::strip_prefix(h, p))),
+        ("strip_suffix", facts(h, kstr::strip_suffix(h, p))),
+        ("trim_start_matches", facts(h, Some(kstr::trim_start_matches(h, p)))),
+        ("trim_end_matches", facts(h, Some(kstr::trim_end_matches(h, p)))),
+        ("trim_matches", facts(h, Some(kstr::trim_matches(h, p)))),
+        ("split_once_a", facts(h, kstr::split_once(h, p).map(|x| x.0))),
+        ("split_once_b", facts(h, kstr::split_once(h, p).map(|x| x.1))),
+        ("rsplit_once_a", facts(h, kstr::rsplit_once(h, p).map(|x| x.0))),
+        ("rsplit_once_b", facts(h, kstr::rsplit_once(h, p).map(|x| x.1))),
+    ]
+}
+
+fn emit_str(out: &mut Out, h: &str, n: &str) {
+    let args = format!("{} {}", hex(h.as_bytes()), hex(n.as_bytes()));
+    let imp = catch(|| fields(&one_pat(h, n)));
+    let tag = if n.len() > 1 || n.bytes().any(|b| b >= 0x80) || h.bytes().any(|b| b >= 0x80) { "multibyte" } else { "-" };
+    out.line("c01.str", &args, &imp, "-", tag);
+}
+fn emit_char(out: &mut Out, h: &str, c: char) {
+    let args = format!("{} {}", hex(h.as_bytes()), c as u32);
+    let imp = catch(|| fields(&one_pat(h, c)));
+    out.line("c01.strchar", &args, &imp, "-", if c.len_utf8() > 1 { "multibyte" } else { "-" });
+}
+fn emit_ws(out: &mut Out, h: &str) {
+    let args = hex(h.as_bytes());
+    let imp = catch(|| {
+        fields(&[
+            ("trim", facts(h, Some(kstr::trim(h)))),
+            ("trim_start", facts(h, Some(kstr::trim_start(h)))),
+            ("trim_end", facts(h, Some(kstr::trim_end(h)))),
+        ])
+    });
+    out.line("c01.ws", &args, &imp, "-", "ws");
+}
+
+/// the Parser's remainder after every step of a short operation sequence: inside the
+/// original, valid UTF-8, both offsets on char boundaries
+fn emit_parser(out: &mut Out, orig: &str, ops: &[crate::c13::Op]) {
+    let d: Vec<String> = ops.iter().map(|o| o.desc()).collect();
+    let args = format!("{} [{}]", hex(orig.as_bytes()), d.join(","));
+    let imp = catch(|| {
+        let mut v: Vec<String> = Vec::new();
+        let mut p = Parser::new(orig);
+        for &op in ops {
+            match crate::c13::apply_pub(p, op) {
+                Ok(q) => {
+                    let s = q.start_offset();
+                    let e = q.end_offset();
+                    let ok = e >= s && e <= orig.len() && orig.is_char_boundary(s) && orig.is_char_boundary(e);
+                    v.push(format!("{}|{}", facts(orig, Some(q.remainder())), show_bool(ok)));
+                    p = q;
+                }
+                Err(_) => {
+                    v.push("err".into());
+                    break;
+                }
+            }
+        }
+        format!("[{}]", v.join(","))
+    });
+    out.line("c01.parser", &args, &imp, "-", "ops");
+}
+
+pub fn run(cfg: &Cfg, out: &mut Out) {
+    let miri = std::env::args().nth(2).map_or(false, |m| m == "miri");
+    let alpha = ['a', 'é', '锈', '🧠'];
+    let hays = all_strings(&alpha, if miri { 2 } else if cfg.thorough { 5 } else { 4 });
+    let pats = all_strings(&alpha, if miri { 1 } else { 2 });
+    for h in &hays {
+        for n in &pats {
+            emit_str(out, h, n);
+        }
+        for c in alpha {
+            emit_char(out, h, c);
+        }
+    }
+    let wsalpha = [' ', '\t', '\u{c}', 'x', 'é', '\u{a0}', '\u{3000}'];
+    for h in all_strings(&wsalpha, if miri { 2 } else { 4 }).iter() {
+        emit_ws(out, h);
+    }
+    // Parser sequences over multi-byte text (depth 2 exhaustive over the C13 op set, incl. skip into
+    // the middle of a char)
+    let pstrs = all_strings(&['a', 'é', '-', ' ', '🧠'], if miri { 1 } else { 3 });
+    for s in &pstrs {
+        for a in crate::c13::OPS {
+            emit_parser(out, s, &[a]);
+            if !miri {
+                for b in crate::c13::OPS {
+                    emit_parser(out, s, &[a, b]);
+                }
+            }
+        }
+    }
+    // other unsafe-backed functions, exercised for Miri's benefit (results compared in C02/C07/C08/C20)
+    if miri {
+        let arr = [1u16, 2, 3, 4, 5];
+        let z = [(); 7];
+        for i in [0usize, 2, 5, 9, usize::MAX] {
+            let _ = konst::slice::slice_from(&arr, i);
+            let _ = konst::slice::slice_up_to(&arr, i);
+            let _ = konst::slice::get_range(&arr, i, 4);
+            let _ = konst::slice::split_at(&z, i);
+        }
+        let _ = konst::slice::as_chunks::<u16, 2>(&arr);
+        let _ = konst::slice::as_rchunks::<u16, 3>(&arr);
+        let s = "aé锈🧠";
+        let mut it = kstr::chars(s);
+        while let Some((_, n)) = it.next() {
+            it = n;
+        }
+        let mut ci = kstr::char_indices(s).rev();
+        while let Some((_, n)) = ci.next() {
+            ci = n;
+        }
+        let _ = konst::chr::encode_utf8('🧠').as_str().len();
+        let _ = konst::chr::from_u32(0xD7FF);
+        let m: [u32; 4] = konst::array::map!([1u32, 2, 3, 4], |x| x + 1);
+        let f: [String; 3] = konst::array::from_fn_!(|i| i.to_string());
+        let _ = (m, f);
+        let c = konst::ffi::cstr::from_bytes_until_nul(b"ab\0c").unwrap();
+        let _ = konst::ffi::cstr::to_bytes_with_nul(c).len();
+        konst::destructure! {(a, b) = (String::from("x"), vec![1u8])}
+        let _ = (a, b);
+    }
+}
